@@ -237,6 +237,13 @@ func (s *Set) Intersect(t Set) error {
 			if telem.min.greaterThan(selem.min) || (telem.min.equal(selem.min) && telem.minOpen) {
 				min = telem.min
 				minOpen = telem.minOpen
+			} else if telem.min.equal(selem.min) && telem.minOpen == selem.minOpen && telem.min.isPrerelease && !selem.min.isPrerelease {
+				// The bounds are the same version, but only the argument's was
+				// written by the user as a prerelease (the receiver's is the
+				// minimum version standing for "no lower bound"): keep the one
+				// that lets prereleases of these numbers match, whichever
+				// operand it comes from.
+				min = telem.min
 			}
 			if telem.max.lessThan(selem.max) || (telem.max.equal(selem.max) && telem.maxOpen) {
 				max = telem.max
